@@ -117,6 +117,9 @@ ENGINES = [
     # (configuration, module path, state layout, family)
     ("K6", "chacha::reference::State::<ROUNDS>", "array", "chacha"),
     ("K0", "chacha::sse2::State::<ROUNDS>", "m128", "chacha"),
+    # the same source built with SSSE3 / AVX2 enabled: cfg(target_feature) variants inside the engine are other code
+    ("K3", "chacha::sse2::State::<ROUNDS>", "m128", "chacha"),
+    ("K5", "chacha::sse2::State::<ROUNDS>", "m128", "chacha"),
     ("K0", "salsa20::State::<ROUNDS>", "array", "salsa"),
 ]
 
